@@ -32,6 +32,7 @@ type KnownFinding struct {
 	What       string            `json:"what_regex,omitempty"`       // matches the RAC failure label
 	Inputs     map[string]string `json:"inputs_regex,omitempty"`     // witness class: regex per shown input
 	InputsAny  []string          `json:"inputs_any_regex,omitempty"` // witness class: each regex must match some input
+	Predicate  string            `json:"predicate,omitempty"`        // witness class: a named predicate over the shown inputs
 	Text       string            `json:"text"`
 	Witness    string            `json:"canonical_witness,omitempty"`
 }
@@ -98,11 +99,52 @@ func (k *KnownFindings) matchFailure(prop, fn string, fl RACFailure) *KnownFindi
 				all = false
 			}
 		}
+		if all && f.Predicate != "" && !knownPredicate(f.Predicate, fl.Inputs) {
+			all = false
+		}
 		if all {
 			return f
 		}
 	}
 	return nil
+}
+
+// knownPredicate evaluates a named witness-class predicate over the shown inputs of a failing tuple.
+//
+//	numbers-within-precision: an option Precision(eps) with eps > 0 is among the inputs and two
+//	different numbers occurring in the other inputs differ by at most eps.
+func knownPredicate(name string, inputs map[string]string) bool {
+	switch name {
+	case "numbers-within-precision":
+		eps := -1.0
+		reEps := regexp.MustCompile(`Precision\(([-+0-9.eE]+)\)`)
+		reNum := regexp.MustCompile(`-?[0-9]+(\.[0-9]+)?([eE][-+]?[0-9]+)?`)
+		var nums []float64
+		for _, v := range inputs {
+			if m := reEps.FindStringSubmatch(v); m != nil {
+				fmt.Sscanf(m[1], "%g", &eps)
+				continue
+			}
+			for _, t := range reNum.FindAllString(v, -1) {
+				var x float64
+				if _, err := fmt.Sscanf(t, "%g", &x); err == nil {
+					nums = append(nums, x)
+				}
+			}
+		}
+		if eps <= 0 {
+			return false
+		}
+		for i, x := range nums {
+			for _, y := range nums[i+1:] {
+				if d := x - y; d != 0 && d <= eps && -d <= eps {
+					return true
+				}
+			}
+		}
+		return false
+	}
+	return false
 }
 
 // Replay is the content of a replay file.
